@@ -93,6 +93,8 @@ def gen_one(rng, tier, scale=False):
 
 
 def gen_cases(tier, seed):
+    # the repository's own tests as a workload (vf/suite_monitor.py)
+    yield {'scenario': 'suite'}
     for i in range(6 if tier == 'quick' else 64):
         yield gen_one(random.Random(f'C11/scale/{seed}/{tier}/{i}'), tier,
                       scale=True)
@@ -104,6 +106,9 @@ def gen_cases(tier, seed):
 
 
 def run_case(case):
+    if case.get('scenario') == 'suite':
+        from vf import suite_monitor
+        return suite_monitor.run_suite(ID)
     res = Res()
     drv = tl.TreeDriver(res, falsy=case.get('falsy_handles', False))
     for at, op in enumerate(case['ops']):
